@@ -11,6 +11,8 @@ A *case* (JSON-serialisable, this is also the replay format):
    "flight": absent | "cache" | "early" | "soft"   (also run pairs of overlapping calls through that decorator)
    "inside": absent | one of INSIDE_KINDS   (decorated vias: the calls are made inside the body of an enclosing function with the same
                                   parameter names, decorated with that cashews decorator and called with other values)
+   "opts": absent | {time_condition: -1, lock: true, upper: true, protected: false} (any subset; decorated vias: passed to the decorator)
+   "stack": absent | one of STACK_KINDS   (the function is first decorated with that cashews decorator, the cache decorator goes on top)
    "reuse": absent | true        (noself only: the decorator object noself(cache)(ttl=..) is first applied to a sibling function
                                   with the same signature, which is also called with the same arguments before every call)
    "prefix": str (decorator only),
@@ -727,7 +729,7 @@ def run_direct(case) -> dict:
     return out
 
 
-def decorate(cache, case, func, kind="cache"):
+def decorate(cache, case, func, kind="cache", with_opts=True):
     """(decorated function, the key template the decorator works with).  via decorator: `cache(ttl=.., key=.., prefix=..)`;
     via noself: `cashews.key.noself(cache)(ttl=..)`, which derives the template itself and hands it to the decorator
     factory as `key=` - that argument is what is reported.  kind: cache | early | soft"""
@@ -740,7 +742,13 @@ def decorate(cache, case, func, kind="cache"):
     if case.get("prefix"):
         kw["prefix"] = case["prefix"]
     fabric = {"cache": cache, "early": cache.early, "soft": cache.soft}[kind]
-    extra = {"early": {"early_ttl": 32}, "soft": {"soft_ttl": 32}}.get(kind, {})
+    extra = dict({"early": {"early_ttl": 32}, "soft": {"soft_ttl": 32}}.get(kind, {}))
+    # facade options that wrap the function (or change how the decorator is applied) before the key template is derived
+    if with_opts:
+        extra.update(case.get("opts") or {})
+    if case.get("stack") and with_opts:
+        # the cache decorator is applied on top of another cashews decorator's result
+        func = stack_under(cache, case["stack"])(func)
     if case["via"] == "noself":
         seen = {}
 
@@ -757,6 +765,18 @@ def decorate(cache, case, func, kind="cache"):
         return wrapped, seen.get("key")
     wrapped = fabric(ttl=64, **extra, **kw)(func)
     return wrapped, get_cache_key_template(func, key=kw.get("key"), prefix=kw.get("prefix", ""))
+
+
+WRAP_OPTIONS = [{"time_condition": -1}, {"lock": True}, {"upper": True}, {"protected": False}, {"time_condition": -1, "lock": True},
+                {"time_condition": -1, "upper": True}, {"upper": True, "lock": True, "protected": False}, {"time_condition": -1, "protected": False}]
+STACK_KINDS = ["locked", "rate_limit", "slice_rate_limit", "circuit_breaker", "invalidate"]
+
+
+def stack_under(cache, kind):
+    return {"locked": lambda: cache.locked(ttl=64), "rate_limit": lambda: cache.rate_limit(limit=100000, period=64),
+            "slice_rate_limit": lambda: cache.slice_rate_limit(limit=100000, period=64),
+            "circuit_breaker": lambda: cache.circuit_breaker(errors_rate=50, period=64, ttl=64),
+            "invalidate": lambda: cache.invalidate("zzz-unrelated:*")}[kind]()
 
 
 def sibling_func(case):
@@ -800,7 +820,7 @@ async def run_flight(case) -> list[dict]:
         cache.setup("mem://?check_interval=0&size=100000")
         await cache.init()
         try:
-            wrapped, _ = decorate(cache, case, func, case["flight"])
+            wrapped, _ = decorate(cache, case, func, case["flight"], with_opts=False)
         except Exception:  # noqa: BLE001 - the decorator refused the template
             await cache.close()
             return out
@@ -906,6 +926,9 @@ async def run_decorated(case) -> dict:
                     res = "E:" + type(exc).__name__
                 gets = [k for op, k in rec if op == "get"]
                 sets = [k for op, k in rec if op == "set"]
+                # the lock entries of lock=True / an underlying cache.locked (set through the same backend): "lock:<key>", "locked:<key>"
+                locks = [k for k in sets if k.startswith(("lock:", "locked:"))]
+                sets = [k for k in sets if k not in locks]
                 out["calls"].append({
                     "key": ("K:" + gets[0]) if gets else res if res.startswith("E:") else "E:noget",
                     "gets": gets, "sets": sets, "result": res, "ran": len(func._calls) - ran0,
